@@ -36,6 +36,16 @@ def make_specs(ctx: Ctx, n):
                  "np_init": i % 4 == 2}]
         label = label + ("; integer-typed initial states" if int_init else "") + ("; numpy initial states" if i % 4 == 2 else "")
         specs.append(mk_spec(i, m, ["c03"], plan, label=label + ("; float64" if i % 5 == 4 else ""), x64=i % 5 == 4))
+    # a shock that does not depend on its own lag but on the agent's other variables (a choice, a restricted state): every
+    # agent's label must have positive probability in the row selected by ITS OWN period-t variables (one-hot rows: exact)
+    r2 = ctx.rng("shock-without-own-lag")
+    for j in range(max(6, n // 12)):
+        m = gen.rand_model(r2, {"p_h": 1.0, "p_h_stoch": 1.0, "h_not_own": True, "onehot": "always" if j % 3 else True, "p_a": 1.0, "p_r": 0.5,
+                                "T": [2, 3], "sizes": {"a": 3, "h": 3}, "max_cells": 900})
+        na = r2.choice([4, 8, 16])
+        plan = [{"op": "simulate", "target": "solve_and_simulate" if j % 2 else "simulate", "init": qinit(gen.rand_initial_states(r2, m, na)),
+                 "seed": r2.randrange(10**6), "vsrc": "own"}]
+        specs.append(mk_spec(len(specs), m, ["c03"], plan, label="stochastic state that is not among its own dependencies"))
     return specs
 
 
